@@ -317,5 +317,5 @@ def strategy(draw):
 
 PHASES = [
     Phase("roundtrip", run_case, strategy=strategy,
-          examples={"quick": 1200, "thorough": 12000}),
+          examples={"quick": 1200, "thorough": 40000}),
 ]
